@@ -31,6 +31,7 @@ var evalHashes = [][3]string{
 	{"interp/value.go", "", "constValue"},
 	{"interp/cfg.go", "", "isUntypedConst"},
 	{"interp/cfg.go", "", "isConstString"},
+	{"interp/value.go", "", "setConstFloat"},
 	{"interp/op.go", "", "addConst"}, {"interp/op.go", "", "subConst"}, {"interp/op.go", "", "mulConst"},
 	{"interp/op.go", "", "quoConst"}, {"interp/op.go", "", "remConst"}, {"interp/op.go", "", "andConst"},
 	{"interp/op.go", "", "orConst"}, {"interp/op.go", "", "xorConst"}, {"interp/op.go", "", "andNotConst"},
@@ -117,6 +118,25 @@ func opOfSetCall(s ast.Stmt) string {
 	return ""
 }
 
+// exactFloatArm recognises the statement of the floating-point / complex arm since 149d328 and returns its token.
+func exactFloatArm(s ast.Stmt) string {
+	es, ok := s.(*ast.ExprStmt)
+	if !ok {
+		return ""
+	}
+	c, ok := es.X.(*ast.CallExpr)
+	if !ok || render(c.Fun) != "setConstFloat" || len(c.Args) != 2 || render(c.Args[0]) != "n.rval" {
+		return ""
+	}
+	if b, ok := isCall(c.Args[1], "constant", "BinaryOp"); ok && len(b.Args) == 3 && render(b.Args[0]) == "constValue(v0)" && render(b.Args[2]) == "constValue(v1)" {
+		return tokOf(b.Args[1])
+	}
+	if u, ok := isCall(c.Args[1], "constant", "UnaryOp"); ok && len(u.Args) == 3 && render(u.Args[1]) == "constValue(v0)" && render(u.Args[2]) == "0" {
+		return tokOf(u.Args[0])
+	}
+	return ""
+}
+
 func analyseFold(fd *ast.FuncDecl) foldFact {
 	var ff foldFact
 	if fd == nil {
@@ -138,6 +158,18 @@ func analyseFold(fd *ast.FuncDecl) foldFact {
 	ast.Inspect(fd.Body, func(n ast.Node) bool {
 		switch x := n.(type) {
 		case *ast.CaseClause:
+			if len(x.List) == 2 && len(x.Body) == 1 {
+				// `case isComplex(t), isFloat(t):` (either order) with the exact fold
+				// setConstFloat(n.rval, constant.BinaryOp(constValue(v0), token.X, constValue(v1))) / constant.UnaryOp(token.X, constValue(v0), 0)
+				names := map[string]bool{render(x.List[0]): true, render(x.List[1]): true}
+				if names["isComplex(t)"] && names["isFloat(t)"] {
+					if op := exactFloatArm(x.Body[0]); op != "" {
+						arms = append(arms, fmt.Sprintf("(.fltExact, .%s)", op))
+					} else {
+						arms = append(arms, "(.flt, .other)")
+					}
+				}
+			}
 			if len(x.List) == 1 {
 				if id, ok := x.List[0].(*ast.Ident); ok && id.Name == "isConst" {
 					constBody = x.Body
